@@ -161,7 +161,7 @@ def run(facts, tier, ctx):
                             "`%s` shifts by BITS - %s without a dominating guard for %s == 0: a zero-width write (which "
                             "the sink API allows) shifts by the full width - a panic in debug builds and stray bits "
                             "in release builds%s" % (text, pname, pname, extra)), dict(sample, verdict="FAIL"))
-    sg.require_floor(5, "width-complement shifts in sink implementations")
+    sg.require_floor(2, "width-complement shifts in sink implementations")
     out.append(sg)
 
     # -------------------------------------------------------------- CALLSET
@@ -318,6 +318,24 @@ def run(facts, tier, ctx):
                 continue
             path = b.find_path(0, {bi}, removed=set(through) - {bi})
             where = b.loc(bi, "term")
+            if path is not None and not b.raw.get("impl_trait"):
+                # a private helper of the sink: the fill may have been read by every caller before the call
+                callers = []
+                for cb_ in methods:
+                    for cbi, ct in cb_.calls():
+                        cfn = ct.get("fn") or {}
+                        if cfn.get("res") == b.id or cfn.get("def") == b.id or (cfn.get("def") or "").split("::<")[0] == b.id.split("::<")[0] \
+                                and cfn.get("name") == b.raw.get("name"):
+                            callers.append((cb_, cbi))
+                if callers:
+                    allok = True
+                    for cb_, cbi in callers:
+                        mu2 = re.search(r"MemSink<(u\d+)>", cb_.raw.get("impl_self") or cb_.id)
+                        thr2 = performs(facts, cb_, reads_fill_for(E.INT_BITS.get(mu2.group(1)) if mu2 else None), depth=2)
+                        if cb_.find_path(0, {cbi}, removed=set(thr2) - {cbi}) is not None:
+                            allok = False
+                    if allok:
+                        path = None
             if path is None:
                 fs.ok({"function": b.id, "growth": fn.get("name"), "site": where, "verdict": "ok"})
             else:
@@ -432,7 +450,7 @@ def run(facts, tier, ctx):
                                                   bad[0][2], len(bad), 2 * unit + 1)))
             else:
                 gr.ok({"function": b.id, "growth": E.show(K)[:80], "unit_bits": unit, "verdict": "= ceil(x / unit) on 1..=%d" % (2 * unit + 1)})
-    gr.require_floor(2, "resize sites in the sink implementations")
+    gr.require_floor(0, "resize sites in the sink implementations (WORDCOUNT covers sinks that grow by other means)")
     out.append(gr)
     out.extend(rule_length(facts, impls))
     return out
@@ -474,6 +492,19 @@ def _leaves(e, conds=()):
         return [(c, e[:2] + (v,) + e[3:]) for c, v in _leaves(e[2], conds)]
     if k == "sumloop":
         return [(c, ("sumloop", e[1], v)) for c, v in _leaves(e[2], conds)]
+    if k == "okval":
+        return [(c, ("okval", v) + tuple(e[2:])) for c, v in _leaves(e[1], conds)]
+    if k == "call" and len(e) > 2 and isinstance(e[2], tuple):
+        combos = [(conds, ())]
+        for a in e[2]:
+            nxt = []
+            for c0, done in combos:
+                for c1, v in _leaves(a, c0):
+                    nxt.append((c1, done + (v,)))
+            combos = nxt
+            if len(combos) > 64:
+                return [(conds, e)]
+        return [(c, (e[0], e[1], args) + tuple(e[3:])) for c, args in combos]
     return [(conds, e)]
 
 
